@@ -237,6 +237,33 @@ def run(tier, seed):
                                   {"entry": f"parse_{kind}_credential_json", "member": mem, "value": "10**5000-like integer (or nested)", "impl": il})
                 if mem == "zz" and il != ref:
                     chk.violation("a very long integer in an ignored member changed the parsed credential", f"{kind}-huge-integer-not-ignored", {"member": mem, "impl": il, "reference": ref})
+    # 1h. text that is ALMOST JSON: raw control characters inside a string member (a hard-wrapped base64 value, a NUL), single quotes, trailing commas, comments,
+    #     unquoted names, a byte order mark in a str: json.loads refuses them, so the parsers refuse them with the structure exception
+    for kind, body in (("auth", '"response": {"clientDataJSON": "e30", "authenticatorData": "AA%sAA", "signature": "c2ln"}'), ("reg", '"response": {"clientDataJSON": "e30", "attestationObject": "o2Nm%sbXQ"}')):
+        for junk in ("\n", "\r\n", "\t", "\x00", "\x1f", "\x0b", "\n\n  "):
+            for t in ('{"id": "AQ", "rawId": "AQ", "type": "public-key", ' + (body % junk) + "}", '{"id": "A' + junk + 'Q", "rawId": "AQ", "type": "public-key", ' + (body % "") + "}",
+                      '{"id": "AQ", "rawId": "A' + junk + 'Q", "type": "public-key", ' + (body % "") + "}"):
+                il = one(kind, t)
+                try:
+                    json.loads(t)
+                    refused = False
+                except ValueError:
+                    refused = True
+                if refused and il != "ERR Lib:InvalidJSONStructure":
+                    chk.violation(f"credential text with a raw control character ({junk!r}) inside a string - no JSON - is not refused with the structure exception: {il[:60]}", f"{kind}-almost-json control-character",
+                                  {"entry": f"parse_{kind}_credential_json", "text": t, "impl": il})
+        good = '{"id": "AQ", "rawId": "AQ", "type": "public-key", ' + (body % "") + "}"
+        for what, t in (("single quotes", good.replace('"', "'")), ("trailing comma", good[:-1] + ",}"), ("comment", good[:-1] + "/* c */}"), ("unquoted name", good.replace('"id"', "id")),
+                        ("byte order mark in a str", "\ufeff" + good), ("two documents", good + good), ("NaN as a name", good[:-1] + ', NaN: 1}'), ("hex number", good[:-1] + ', "n": 0x10}'),
+                        ("leading zero", good[:-1] + ', "n": 01}'), ("plus sign", good[:-1] + ', "n": +1}'), ("bare escape", good.replace("AQ", "A\\qQ", 1))):
+            il = one(kind, t)
+            try:
+                json.loads(t)
+                refused = False
+            except ValueError:
+                refused = True
+            if refused and il != "ERR Lib:InvalidJSONStructure":
+                chk.violation(f"credential text that is almost JSON ({what}) is not refused with the structure exception: {il[:60]}", f"{kind}-almost-json {what}", {"entry": f"parse_{kind}_credential_json", "text": t, "impl": il})
     # 2. member-wise mutation stream, both parsers, both forms
     base_a = {"id": "AQ", "rawId": "AQ", "type": "public-key", "authenticatorAttachment": "platform",
               "response": {"clientDataJSON": "e30", "authenticatorData": "AAAA", "signature": "c2ln", "userHandle": "dWg"}}
@@ -316,6 +343,18 @@ def run(tier, seed):
         tb = extra.get("tokenBinding")
         tbs = impl.opt(json_to_wire, tb["status"]) if isinstance(tb, dict) else "N"
         cd(json.dumps(d).encode(), " ".join([json_to_wire(typ), fw.wb(ch), json_to_wire(org), tbs]))
+    # the client data in every Unicode encoding json.loads detects for bytes (UTF-8 with a byte order mark, UTF-16 / UTF-32 with and without one), and with
+    # escaped lone surrogates / non-BMP characters in members: exactly the object's type, challenge and origin
+    for typ, org, extra in (("webauthn.get", "https://example.com", {}), ("webauthn.create", "https://b\u00fccher.example", {"zz": "\ud83d\ude00"}), ("t", "o", {"lone": "\ud800", "k": ["\udfff"]})):
+        chb = b"\x01\x02challenge"
+        d = {"type": typ, "challenge": authsim.b64u(chb), "origin": org}
+        d.update(extra)
+        text = json.dumps(d)
+        expect = " ".join([json_to_wire(typ), fw.wb(chb), json_to_wire(org), "N"])
+        for enc in ("utf-8", "utf-8-sig", "utf-16", "utf-16-le", "utf-16-be", "utf-32", "utf-32-le", "utf-32-be"):
+            cd(text.encode(enc), expect)
+        d2 = dict(d, origin="\ud800x")
+        cd(json.dumps(d2).encode(), " ".join([json_to_wire(typ), fw.wb(chb), json_to_wire("\ud800x"), "N"]))
     for v in jsonmut.VALUES + [["type", "challenge", "origin"], "type challenge origin", {"type": 1, "challenge": None, "origin": []},
                                {"type": "t", "challenge": 123, "origin": "o"}, {"type": "t", "challenge": True, "origin": "o"},
                                {"type": "t", "challenge": "A", "origin": "o"}, {"type": "t", "origin": "o"}, {"challenge": "", "origin": "o"},
